@@ -740,6 +740,13 @@ func sharedHistory(rng *rand.Rand, u universe, n int) []op {
 		default:
 			ops = append(ops, op{Kind: "unsuball", Client: cl})
 		}
+		// durable back ends only (ignored by the others): a failing back end, a restart
+		if rng.Intn(12) == 0 {
+			ops[len(ops)-1].Fault = true
+		}
+		if rng.Intn(8) == 0 {
+			ops = append(ops, op{Kind: "reload"})
+		}
 	}
 	return ops
 }
